@@ -15,7 +15,7 @@
     Section whose only hypothesis is the round trip of C03; it is instantiated here with C03's proof. *)
 From Coq Require Import List ZArith String Bool Arith.
 From Thunder Require Import Lib.Json DiffMerge.Model Server.Model Server.Spec Server.Proofs Server.ProofsLife
-     Server.ProofsConv Server.Witness Server.ProofsC02.
+     Server.ProofsConv Server.Witness Server.Queries Server.ProofsC02.
 Import ListNotations.
 
 (** Convergence.  After any history in which no socket write has failed ([st_wfail s = false]: the client is
@@ -59,6 +59,28 @@ Theorem no_update_after_unsubscribe : forall cfg s id s1 h s2,
   forall e, In e (st_out s2) -> e_id e = id -> e_type e = EUpdate -> In e (st_out s1).
 Proof. exact ProofsC02.no_update_after_unsubscribe_l. Qed.
 Print Assumptions no_update_after_unsubscribe.
+
+(** Own query, own variables (Server/Queries.v: histories annotated with query tokens, one token per
+    (query text, variables) pair; [qs] maps every rerunner to the token of the message that created it).
+    The rerunner created by an accepted subscribe / mutate records the token of that message, *)
+Theorem subscribe_records_its_query : forall cfg h s qs l tok s' qs',
+  runQ cfg (init, []) h = Some (s, qs) -> creates l = true -> stepQ cfg (s, qs) (l, tok) = Some (s', qs') ->
+  st_next s < st_next s' -> qlookup (st_next s) qs' = Some tok.
+Proof. exact ProofsC02.subscribe_records_its_query_l. Qed.
+Print Assumptions subscribe_records_its_query.
+
+(** and every computation of that rerunner, whatever happens in between (other subscriptions with the same
+    text and other variables, unsubscribe and re-subscribe of the id), executes exactly that query. *)
+Theorem computations_execute_own_query : forall cfg h1 s1 qs1 rid t h2 s2 qs2 o tok p3,
+  runQ cfg (init, []) h1 = Some (s1, qs1) -> qlookup rid qs1 = Some t ->
+  runQ cfg (s1, qs1) h2 = Some (s2, qs2) -> stepQ cfg (s2, qs2) (LRun rid o, tok) = Some p3 -> tok = t.
+Proof. exact ProofsC02.computations_execute_own_query_l. Qed.
+Print Assumptions computations_execute_own_query.
+
+Example variables_example :
+  exists s qs, runQ (repaired 3) (init, []) h_vars = Some (s, qs) /\ qs = [(2, 73); (1, 72); (0, 71)]
+  /\ stepQ (repaired 3) (s, qs) (LRun 2 (OOk v2), 71) = None.
+Proof. exact ProofsC02.vars_example_l. Qed.
 
 (** F13: with the original handleMutate (no duplicate-id check) an update for id 0 is written after the
     unsubscribe for 0 was processed. *)
